@@ -175,7 +175,9 @@ def impl_decode(layer, idmap, msg, rq=None):
         if k[:2] == [-1, 5]:
             k = [-1, 5]
         return k
-    return [0, [[idmap[m.service.short_name], idmap[m.coding_object.odx_id.local_id], cc.canon_value(m.param_dict)] for m in r]]
+    # (in lenient mode a service which cannot decode the message yields a result without coding object: 0)
+    return [0, [[idmap[m.service.short_name], 0 if m.coding_object is None else idmap[m.coding_object.odx_id.local_id],
+                 cc.canon_value(m.param_dict)] for m in r]]
 
 
 def norm_model(m):
